@@ -19,6 +19,22 @@ pub fn gen(seed: u64, tier: Tier) -> ScenarioSpec {
     let cfg = if sparse { GenCfg { size: Some(gen::SizeClass::Tiny), ..Default::default() } } else { cfg };
     let mut rec = gen::gen_recorder(&mut rng, &cfg);
     let sparse_knobs: Vec<(&str, i64)> = if sparse { gen_sparse(&mut rng, &mut rec) } else { vec![] };
+    if !sparse {
+        match rng.below(40) {
+            // long runs of one-byte reads: a deep chain of maps with one-byte keys, or hundreds of zero-size events in a row
+            0 => {
+                let d = 55 + rng.below(70) as u32;
+                rec.metadata = Some(gen::gen_chain(&mut rng, d));
+            }
+            1 => {
+                let code = 0x60 + rng.below(0x30) as u8;
+                let at = rng.below(super::c17::events_hint(&rec) as u64 + 1) as u32;
+                let n = 256 + rng.usize_below(400);
+                rec.extras.unknown = vec![UnknownEv { code, size: 0, after: vec![at; n], pseed: rng.next_u64(), split: false }];
+            }
+            _ => {}
+        }
+    }
     let mut spec = gen::base_spec(P, "S5", seed, rec);
     for (k, v) in sparse_knobs {
         spec.knobs.insert(k.into(), v);
